@@ -1,7 +1,829 @@
-/- Helper lemmas for LC/Props/C18.lean. TO BE PROVED (no sorry may remain). -/
 import LC.Model.Lexer
 import LC.Spec.LexSpec
 import LC.Gen.LangTable
 namespace LC.Lexer
-open LC.Utf8
+open LC.Utf8 LC.LexSpec
+
+/-! ### tracking line and column over a consumed segment -/
+
+/-- the column after reading `s` starting at column `col` -/
+def colAfter : List Rune → Nat → Nat
+  | [], col => col
+  | c :: s, col => colAfter s (if c = 10 then 0 else col + 1)
+
+theorem nls_nil : nls [] = 0 := rfl
+
+theorem nls_cons (c : Rune) (s : List Rune) : nls (c :: s) = nls s + (if c = 10 then 1 else 0) := by
+  simp [nls, List.count_cons]
+
+theorem nls_append (a b : List Rune) : nls (a ++ b) = nls a + nls b := by
+  simp [nls, List.count_append]
+
+theorem nls_eq_zero {s : List Rune} : nls s = 0 ↔ (10 : Rune) ∉ s := by
+  simp [nls, List.count_eq_zero]
+
+theorem colAfter_append (a b : List Rune) (col : Nat) :
+    colAfter (a ++ b) col = colAfter b (colAfter a col) := by
+  induction a generalizing col with
+  | nil => rfl
+  | cons c a ih => simp [colAfter, ih]
+
+theorem colAfter_of_not_mem {s : List Rune} (h : (10 : Rune) ∉ s) (col : Nat) :
+    colAfter s col = col + s.length := by
+  induction s generalizing col with
+  | nil => rfl
+  | cons c s ih =>
+    have hc : c ≠ 10 := fun e => h (by simp [e])
+    have hs : (10 : Rune) ∉ s := fun e => h (by simp [e])
+    simp [colAfter, hc, ih hs]; omega
+
+theorem takeWhile_append_of_exists {α} (p : α → Bool) (l m : List α) (h : ∃ x ∈ l, p x = false) :
+    (l ++ m).takeWhile p = l.takeWhile p := by
+  induction l with
+  | nil => obtain ⟨x, hx, _⟩ := h; cases hx
+  | cons a l ih =>
+    simp only [List.cons_append, List.takeWhile_cons]
+    cases hpa : p a with
+    | false => simp
+    | true =>
+      simp only [if_true]
+      obtain ⟨x, hx, hpx⟩ := h
+      rcases List.mem_cons.1 hx with rfl | hx
+      · rw [hpa] at hpx; cases hpx
+      · rw [ih ⟨x, hx, hpx⟩]
+
+/-- `colAfter` is the specification's closed form -/
+theorem colAfter_spec (s : List Rune) (col : Nat) :
+    colAfter s col = if nls s = 0 then col + s.length else (s.reverse.takeWhile (· ≠ 10)).length := by
+  induction s generalizing col with
+  | nil => simp [colAfter, nls_nil]
+  | cons c s ih =>
+    rw [colAfter, ih, nls_cons, List.reverse_cons]
+    by_cases hs : nls s = 0
+    · have hmem : (10 : Rune) ∉ s := nls_eq_zero.1 hs
+      by_cases hc : c = 10
+      · subst hc
+        rw [List.takeWhile_append_of_pos]
+        · simp [hs]
+        · intro a ha; simp at ha ⊢; intro e; exact hmem (e ▸ ha)
+      · simp [hs, hc]; omega
+    · have hmem : (10 : Rune) ∈ s := by
+        by_cases h : (10 : Rune) ∈ s
+        · exact h
+        · exact absurd (nls_eq_zero.2 h) hs
+      rw [takeWhile_append_of_exists _ _ _ ⟨10, by simpa using hmem, by simp⟩]
+      have : ¬ (nls s + (if c = 10 then 1 else 0) = 0) := by omega
+      simp [hs]
+
+theorem advanceN_append (s r : List Rune) (line col : Nat) :
+    advanceN s.length ⟨s ++ r, line, col⟩ = ⟨r, line + nls s, colAfter s col⟩ := by
+  induction s generalizing line col with
+  | nil => simp [advanceN, nls_nil, colAfter]
+  | cons c s ih =>
+    simp only [List.length_cons, advanceN, advance, List.cons_append]
+    by_cases hc : c = 10
+    · simp only [hc, if_true, ih, nls_cons, colAfter]; simp; omega
+    · simp only [hc, if_false, ih, nls_cons, colAfter]; simp
+
+theorem advance_cons (c : Rune) (r : List Rune) (line col : Nat) :
+    advance ⟨c :: r, line, col⟩ = ⟨r, line + nls [c], colAfter [c] col⟩ := by
+  have := advanceN_append [c] r line col
+  simpa [advanceN] using this
+
+theorem isPrefixOf_eq_append {s rest : List Rune} (h : s.isPrefixOf rest = true) :
+    rest = s ++ rest.drop s.length :=
+  (List.prefix_iff_eq_append.1 (List.isPrefixOf_iff_prefix.1 h)).symm
+
+/-- `match(s)` is a non-empty-prefix test; on success the position moves over the delimiter -/
+theorem matchAt_eq (s rest : List Rune) (line col : Nat) :
+    matchAt s ⟨rest, line, col⟩ =
+      if s ≠ [] ∧ s.isPrefixOf rest = true then
+        some ⟨rest.drop s.length, line + nls s, colAfter s col⟩ else none := by
+  unfold matchAt
+  by_cases hs : s = []
+  · simp [hs]
+  · by_cases hp : s.isPrefixOf rest = true
+    · simp only [hs, hp, if_false, if_true, ne_eq, not_false_eq_true, and_self]
+      have := advanceN_append s (rest.drop s.length) line col
+      rw [← isPrefixOf_eq_append hp] at this
+      rw [this]
+    · simp [hs, hp]
+
+
+theorem stringBody_spec (R : Row) (quote : List Rune) (esc : Bool) (hq : quote ≠ []) :
+    ∀ (fuel : Nat) (rest : List Rune) (line col : Nat) (acc : List Rune),
+      (strBody quote esc R.nlEndsString fuel rest acc = none →
+        stringBody R quote esc fuel ⟨rest, line, col⟩ acc = none) ∧
+      (∀ rest' content, strBody quote esc R.nlEndsString fuel rest acc = some (rest', content) →
+        ∃ seen, rest = seen ++ rest' ∧
+          stringBody R quote esc fuel ⟨rest, line, col⟩ acc =
+            some (⟨rest', line + nls seen, colAfter seen col⟩, content)) := by
+  intro fuel
+  induction fuel with
+  | zero => intro rest line col acc; simp [strBody, stringBody]
+  | succ fuel ih =>
+    intro rest line col acc
+    cases rest with
+    | nil => simp [strBody, stringBody]
+    | cons c cs =>
+      by_cases h1 : esc = true ∧ c = 92
+      · obtain ⟨rfl, rfl⟩ := h1
+        cases cs with
+        | nil => simp [strBody, stringBody, advance]
+        | cons d ds =>
+          by_cases hds : ds = []
+          · simp [strBody, stringBody, advance_cons, hds]
+          · have := ih ds (line + nls [92] + nls [d]) (colAfter [d] (colAfter [92] col)) (acc ++ [d])
+            simp only [strBody, stringBody, advance_cons, hds, and_self, if_true, if_false,
+              List.headD_cons]
+            refine ⟨this.1, fun rest' content h => ?_⟩
+            obtain ⟨seen, hs, he⟩ := this.2 _ _ h
+            refine ⟨92 :: d :: seen, by simp [hs], ?_⟩
+            rw [he]
+            simp [nls_cons, nls_nil, colAfter]
+            omega
+      · simp only [strBody, stringBody, h1, if_false, matchAt_eq, hq, ne_eq, not_false_eq_true, true_and]
+        by_cases hp : quote.isPrefixOf (c :: cs) = true
+        · simp only [hp, if_true]
+          refine ⟨by simp, fun rest' content h => ?_⟩
+          simp only [Option.some.injEq, Prod.mk.injEq] at h
+          obtain ⟨rfl, rfl⟩ := h
+          exact ⟨quote, isPrefixOf_eq_append hp, rfl⟩
+        · simp only [hp, Bool.false_eq_true, if_false]
+          by_cases hn : R.nlEndsString = true ∧ c = 10
+          · simp only [hn, and_self, if_true]
+            refine ⟨by simp, fun rest' content h => ?_⟩
+            simp only [Option.some.injEq, Prod.mk.injEq] at h
+            obtain ⟨rfl, rfl⟩ := h
+            exact ⟨[], rfl, by simp [nls_nil, colAfter]⟩
+          · simp only [hn, if_false, advance_cons]
+            by_cases hcs : cs = []
+            · simp [hcs]
+            · simp only [hcs, if_false]
+              have := ih cs (line + nls [c]) (colAfter [c] col) (acc ++ [c])
+              refine ⟨this.1, fun rest' content h => ?_⟩
+              obtain ⟨seen, hs, he⟩ := this.2 _ _ h
+              refine ⟨c :: seen, by simp [hs], ?_⟩
+              rw [he]
+              simp [nls_cons, nls_nil, colAfter]
+              omega
+
+theorem blockBody_step (start stop : List Rune) (nested : Bool) (fuel : Nat) (c : Rune) (cs : List Rune)
+    (depth : Nat) (acc : List Rune) :
+    blockBody start stop nested (fuel + 1) (c :: cs) depth acc =
+      if nested = true ∧ start ≠ [] ∧ start.isPrefixOf (c :: cs) = true then
+        blockBody start stop nested fuel ((c :: cs).drop start.length) (depth + 1) (acc ++ start)
+      else if stop ≠ [] ∧ stop.isPrefixOf (c :: cs) = true then
+        if depth > 0 then blockBody start stop nested fuel ((c :: cs).drop stop.length) (depth - 1) (acc ++ stop)
+        else some ((c :: cs).drop stop.length, acc)
+      else blockBody start stop nested fuel cs depth (acc ++ [c]) := by
+  simp only [blockBody]
+
+theorem multiBody_step (R : Row) (start stop : List Rune) (fuel : Nat) (c : Rune) (cs : List Rune)
+    (line col depth : Nat) (acc : List Rune) :
+    multiBody R start stop (fuel + 1) ⟨c :: cs, line, col⟩ depth acc =
+      if R.nested = true ∧ start ≠ [] ∧ start.isPrefixOf (c :: cs) = true then
+        multiBody R start stop fuel ⟨(c :: cs).drop start.length, line + nls start, colAfter start col⟩
+          (depth + 1) (acc ++ start)
+      else if stop ≠ [] ∧ stop.isPrefixOf (c :: cs) = true then
+        if depth > 0 then
+          multiBody R start stop fuel ⟨(c :: cs).drop stop.length, line + nls stop, colAfter stop col⟩
+            (depth - 1) (acc ++ stop)
+        else some (⟨(c :: cs).drop stop.length, line + nls stop, colAfter stop col⟩, acc)
+      else multiBody R start stop fuel ⟨cs, line + nls [c], colAfter [c] col⟩ depth (acc ++ [c]) := by
+  simp only [multiBody, matchAt_eq, advance_cons]
+  by_cases hn : R.nested = true <;> by_cases hs : start = [] <;>
+    by_cases hp : start.isPrefixOf (c :: cs) = true <;> by_cases ht : stop = [] <;>
+    by_cases hq : stop.isPrefixOf (c :: cs) = true <;> simp [hn, hs, hp, ht, hq]
+
+theorem multiBody_spec (R : Row) (start stop : List Rune) :
+    ∀ (fuel : Nat) (rest : List Rune) (line col depth : Nat) (acc : List Rune),
+      (blockBody start stop R.nested fuel rest depth acc = none →
+        multiBody R start stop fuel ⟨rest, line, col⟩ depth acc = none) ∧
+      (∀ rest' text, blockBody start stop R.nested fuel rest depth acc = some (rest', text) →
+        ∃ seen, rest = seen ++ rest' ∧
+          multiBody R start stop fuel ⟨rest, line, col⟩ depth acc =
+            some (⟨rest', line + nls seen, colAfter seen col⟩, text)) := by
+  intro fuel
+  induction fuel with
+  | zero => intro rest line col depth acc; simp [blockBody, multiBody]
+  | succ fuel ih =>
+    intro rest line col depth acc
+    cases rest with
+    | nil => simp [blockBody, multiBody]
+    | cons c cs =>
+      rw [blockBody_step, multiBody_step]
+      by_cases h1 : R.nested = true ∧ start ≠ [] ∧ start.isPrefixOf (c :: cs) = true
+      · rw [if_pos h1, if_pos h1]
+        have := ih ((c :: cs).drop start.length) (line + nls start) (colAfter start col) (depth + 1) (acc ++ start)
+        refine ⟨this.1, fun rest' text h => ?_⟩
+        obtain ⟨seen, hs, he⟩ := this.2 _ _ h
+        refine ⟨start ++ seen, ?_, ?_⟩
+        · rw [List.append_assoc, ← hs]; exact isPrefixOf_eq_append h1.2.2
+        · rw [he]; simp [nls_append, colAfter_append]; omega
+      · rw [if_neg h1, if_neg h1]
+        by_cases h2 : stop ≠ [] ∧ stop.isPrefixOf (c :: cs) = true
+        · rw [if_pos h2, if_pos h2]
+          by_cases hd : depth > 0
+          · rw [if_pos hd, if_pos hd]
+            have := ih ((c :: cs).drop stop.length) (line + nls stop) (colAfter stop col) (depth - 1) (acc ++ stop)
+            refine ⟨this.1, fun rest' text h => ?_⟩
+            obtain ⟨seen, hs, he⟩ := this.2 _ _ h
+            refine ⟨stop ++ seen, ?_, ?_⟩
+            · rw [List.append_assoc, ← hs]; exact isPrefixOf_eq_append h2.2
+            · rw [he]; simp [nls_append, colAfter_append]; omega
+          · rw [if_neg hd, if_neg hd]
+            refine ⟨by simp, fun rest' text h => ?_⟩
+            simp only [Option.some.injEq, Prod.mk.injEq] at h
+            obtain ⟨rfl, rfl⟩ := h
+            exact ⟨stop, isPrefixOf_eq_append h2.2, rfl⟩
+        · rw [if_neg h2, if_neg h2]
+          have := ih cs (line + nls [c]) (colAfter [c] col) depth (acc ++ [c])
+          refine ⟨this.1, fun rest' text h => ?_⟩
+          obtain ⟨seen, hs, he⟩ := this.2 _ _ h
+          refine ⟨c :: seen, by simp [hs], ?_⟩
+          rw [he]
+          simp [nls_cons, nls_nil, colAfter]
+          omega
+
+theorem singleBody_eq (l : List Rune) :
+    singleBody l = (l.takeWhile (· ≠ 10), l.dropWhile (· ≠ 10)) := by
+  induction l with
+  | nil => rfl
+  | cons c l ih =>
+    by_cases hc : c = 10
+    · simp [singleBody, hc]
+    · simp [singleBody, hc, ih]
+
+theorem firstMatch_eq (ss : List (List Rune)) (rest : List Rune) (line col : Nat) :
+    firstMatch ss ⟨rest, line, col⟩ =
+      (firstPrefix ss rest).map (fun s => ⟨rest.drop s.length, line + nls s, colAfter s col⟩) := by
+  induction ss with
+  | nil => rfl
+  | cons s ss ih =>
+    simp only [firstMatch, firstPrefix, matchAt_eq]
+    by_cases h : s ≠ [] ∧ s.isPrefixOf rest = true
+    · rw [if_pos h, if_pos h]; rfl
+    · rw [if_neg h, if_neg h]; exact ih
+
+theorem firstPrefix_some {ss : List (List Rune)} {rest s : List Rune} (h : firstPrefix ss rest = some s) :
+    s ∈ ss ∧ s ≠ [] ∧ s.isPrefixOf rest = true := by
+  induction ss with
+  | nil => cases h
+  | cons t ss ih =>
+    simp only [firstPrefix] at h
+    by_cases ht : t ≠ [] ∧ t.isPrefixOf rest = true
+    · rw [if_pos ht] at h; cases h; exact ⟨by simp, ht⟩
+    · rw [if_neg ht] at h; have := ih h; exact ⟨by simp [this.1], this.2⟩
+
+theorem firstPrefix_none {ss : List (List Rune)} {rest : List Rune} (h : firstPrefix ss rest = none) :
+    ∀ s ∈ ss, ¬ (s ≠ [] ∧ s.isPrefixOf rest = true) := by
+  induction ss with
+  | nil => intro s hs; cases hs
+  | cons t ss ih =>
+    simp only [firstPrefix] at h
+    by_cases ht : t ≠ [] ∧ t.isPrefixOf rest = true
+    · rw [if_pos ht] at h; cases h
+    · rw [if_neg ht] at h
+      intro s hs
+      rcases List.mem_cons.1 hs with rfl | hs
+      · exact ht
+      · exact ih h s hs
+
+theorem firstMulti_eq (ms : List (List Rune × List Rune)) (rest : List Rune) (line col : Nat) :
+    firstMulti ms ⟨rest, line, col⟩ =
+      (firstBlock ms rest).map
+        (fun m => (⟨rest.drop m.1.length, line + nls m.1, colAfter m.1 col⟩, m.1, m.2)) := by
+  induction ms with
+  | nil => rfl
+  | cons m ms ih =>
+    obtain ⟨s, e⟩ := m
+    simp only [firstMulti, firstBlock, matchAt_eq]
+    by_cases h : s ≠ [] ∧ s.isPrefixOf rest = true
+    · rw [if_pos h, if_pos h]; rfl
+    · rw [if_neg h, if_neg h]; exact ih
+
+theorem firstBlock_some {ms : List (List Rune × List Rune)} {rest : List Rune} {m : List Rune × List Rune}
+    (h : firstBlock ms rest = some m) : m ∈ ms ∧ m.1 ≠ [] ∧ m.1.isPrefixOf rest = true := by
+  induction ms with
+  | nil => cases h
+  | cons t ms ih =>
+    obtain ⟨s, e⟩ := t
+    simp only [firstBlock] at h
+    by_cases ht : s ≠ [] ∧ s.isPrefixOf rest = true
+    · rw [if_pos ht] at h; cases h; exact ⟨by simp, ht⟩
+    · rw [if_neg ht] at h; have := ih h; exact ⟨by simp [this.1], this.2⟩
+
+theorem firstBlock_none {ms : List (List Rune × List Rune)} {rest : List Rune} (h : firstBlock ms rest = none) :
+    ∀ m ∈ ms, ¬ (m.1 ≠ [] ∧ m.1.isPrefixOf rest = true) := by
+  induction ms with
+  | nil => intro s hs; cases hs
+  | cons t ms ih =>
+    obtain ⟨s, e⟩ := t
+    simp only [firstBlock] at h
+    by_cases ht : s ≠ [] ∧ s.isPrefixOf rest = true
+    · rw [if_pos ht] at h; cases h
+    · rw [if_neg ht] at h
+      intro m hm
+      rcases List.mem_cons.1 hm with rfl | hm
+      · exact ht
+      · exact ih h m hm
+
+/-- a non-empty prefix of `10 :: _` contains 10 -/
+theorem mem_of_isPrefixOf_cons {s cs : List Rune} {c : Rune} (hs : s ≠ []) (hp : s.isPrefixOf (c :: cs) = true) :
+    c ∈ s := by
+  cases s with
+  | nil => exact absurd rfl hs
+  | cons a s => simp [List.isPrefixOf] at hp; simp [hp.1]
+
+
+theorem dropWhile_ne10 (l : List Rune) :
+    l.dropWhile (· ≠ 10) = [] ∨ ∃ t, l.dropWhile (· ≠ 10) = 10 :: t := by
+  induction l with
+  | nil => exact Or.inl rfl
+  | cons a l ih =>
+    by_cases ha : a = 10
+    · subst ha; exact Or.inr ⟨l, by simp⟩
+    · simpa [List.dropWhile_cons, ha] using ih
+
+/-- in code mode a newline is skipped (no delimiter starts with a newline) -/
+theorem code_newline (R : Row) (wf : R.WF) (f : Nat) (t : List Rune) (line col : Nat) :
+    code R (f + 1) (10 :: t) line col = code R f t (line + 1) 0 := by
+  have hfb : firstBlock R.multis (10 :: t) = none := by
+    rcases h : firstBlock R.multis (10 :: t) with _ | m
+    · rfl
+    · obtain ⟨hm, hne, hp⟩ := firstBlock_some h
+      exact absurd (mem_of_isPrefixOf_cons hne hp) (wf.2 m hm).1
+  have hfp : firstPrefix R.singles (10 :: t) = none := by
+    rcases h : firstPrefix R.singles (10 :: t) with _ | s
+    · rfl
+    · obtain ⟨hm, hne, hp⟩ := firstPrefix_some h
+      exact absurd (mem_of_isPrefixOf_cons hne hp) (wf.1 s hm)
+  have hq : ¬ ((10 : Rune) = 34 ∨ (10 : Rune) = 39 ∨ (10 : Rune) = 96) := by decide
+  simp only [code, if_neg hq, hfb, hfp, if_true]
+
+/-- the induction hypothesis of the main loop, as a predicate on the bound `n` -/
+def LoopIH (R : Row) (n : Nat) : Prop :=
+  ∀ (rest : List Rune), rest.length ≤ n →
+    ∀ (f1 f2 line col : Nat) (acc : List Comment), rest.length < f1 → rest.length < f2 →
+      lexLoop R f1 ⟨rest, line, col⟩ acc = acc ++ code R f2 rest line col
+
+/-- resuming the loop after a lexeme `S`: the specification recomputes line and column from `S` -/
+theorem resume (R : Row) (n : Nat) (ih : LoopIH R n) (rest S rest' : List Rune) (hrest : rest = S ++ rest')
+    (hS : S ≠ []) (hn : rest.length ≤ n + 1) (f1 f2 line col : Nat) (acc : List Comment)
+    (h1 : rest.length < f1 + 1) (h2 : rest.length < f2 + 1) :
+    lexLoop R f1 ⟨rest', line + nls S, colAfter S col⟩ acc =
+      acc ++ code R f2 rest' (line + nls (rest.take (rest.length - rest'.length)))
+        (if nls (rest.take (rest.length - rest'.length)) = 0 then col + (rest.length - rest'.length)
+         else ((rest.take (rest.length - rest'.length)).reverse.takeWhile (· ≠ 10)).length) ∧
+    line + nls S = line + nls (rest.take (rest.length - rest'.length)) := by
+  subst hrest
+  have e2 : (S ++ rest').length - rest'.length = S.length := by simp
+  have e1 : (S ++ rest').take S.length = S := by simp
+  have hpos : 0 < S.length := List.length_pos_iff.2 hS
+  rw [e2, e1, ← colAfter_spec]
+  simp only [List.length_append] at hn h1 h2
+  exact ⟨ih rest' (by omega) f1 f2 _ _ acc (by omega) (by omega), rfl⟩
+
+theorem string_some (R : Row) (n : Nat) (ih : LoopIH R n) (rest quote body : List Rune) (esc : Bool)
+    (hq : quote ≠ []) (h10 : (10 : Rune) ∉ quote) (hrest : rest = quote ++ body)
+    (hn : rest.length ≤ n + 1) (f1 f2 line col : Nat)
+    (h1 : rest.length < f1 + 1) (h2 : rest.length < f2 + 1) (rest' content : List Rune)
+    (hsb : strBody quote esc R.nlEndsString (body.length + 1) body [] = some (rest', content)) :
+    ∃ p2, stringBody R quote esc (body.length + 1) ⟨body, line, col + quote.length⟩ [] = some (p2, content) ∧
+      p2.line = line + nls (rest.take (rest.length - rest'.length)) ∧
+      ∀ acc, lexLoop R f1 p2 acc =
+        acc ++ code R f2 rest' (line + nls (rest.take (rest.length - rest'.length)))
+          (if nls (rest.take (rest.length - rest'.length)) = 0 then col + (rest.length - rest'.length)
+           else ((rest.take (rest.length - rest'.length)).reverse.takeWhile (· ≠ 10)).length) := by
+  obtain ⟨seen, hs, he⟩ := (stringBody_spec R quote esc hq _ body line (col + quote.length) []).2 _ _ hsb
+  refine ⟨_, he, ?_⟩
+  have hr : rest = (quote ++ seen) ++ rest' := by rw [hrest, hs, List.append_assoc]
+  have hl : line + nls seen = line + nls (quote ++ seen) := by
+    rw [nls_append, nls_eq_zero.2 h10]; omega
+  have hc : colAfter seen (col + quote.length) = colAfter (quote ++ seen) col := by
+    rw [colAfter_append, colAfter_of_not_mem h10]
+  rw [hl, hc]
+  refine ⟨(resume R n ih rest _ rest' hr (by simp [hq]) hn f1 f2 line col [] h1 h2).2, fun acc => ?_⟩
+  exact (resume R n ih rest _ rest' hr (by simp [hq]) hn f1 f2 line col acc h1 h2).1
+
+theorem block_some (R : Row) (n : Nat) (ih : LoopIH R n) (rest start stop body : List Rune)
+    (hq : start ≠ []) (hrest : rest = start ++ body)
+    (hn : rest.length ≤ n + 1) (f1 f2 line col : Nat)
+    (h1 : rest.length < f1 + 1) (h2 : rest.length < f2 + 1) (rest' text : List Rune)
+    (hsb : blockBody start stop R.nested (body.length + 1) body 0 [] = some (rest', text)) :
+    ∃ p2, multiBody R start stop (body.length + 1) ⟨body, line + nls start, colAfter start col⟩ 0 [] = some (p2, text) ∧
+      p2.line = line + nls (rest.take (rest.length - rest'.length)) ∧
+      ∀ acc, lexLoop R f1 p2 acc =
+        acc ++ code R f2 rest' (line + nls (rest.take (rest.length - rest'.length)))
+          (if nls (rest.take (rest.length - rest'.length)) = 0 then col + (rest.length - rest'.length)
+           else ((rest.take (rest.length - rest'.length)).reverse.takeWhile (· ≠ 10)).length) := by
+  obtain ⟨seen, hs, he⟩ := (multiBody_spec R start stop _ body (line + nls start) (colAfter start col) 0 []).2 _ _ hsb
+  refine ⟨_, he, ?_⟩
+  have hr : rest = (start ++ seen) ++ rest' := by rw [hrest, hs, List.append_assoc]
+  have hl : line + nls start + nls seen = line + nls (start ++ seen) := by
+    rw [nls_append]; omega
+  have hc : colAfter seen (colAfter start col) = colAfter (start ++ seen) col := by
+    rw [colAfter_append]
+  rw [hl, hc]
+  refine ⟨(resume R n ih rest _ rest' hr (by simp [hq]) hn f1 f2 line col [] h1 h2).2, fun acc => ?_⟩
+  exact (resume R n ih rest _ rest' hr (by simp [hq]) hn f1 f2 line col acc h1 h2).1
+
+theorem lexLoop_spec (R : Row) (wf : R.WF) : ∀ (n : Nat), LoopIH R n := by
+  intro n
+  induction n with
+  | zero =>
+    intro rest hn f1 f2 line col acc h1 h2
+    have : rest = [] := List.eq_nil_of_length_eq_zero (by omega)
+    subst this
+    cases f1 <;> cases f2 <;> simp [lexLoop, code]
+  | succ n ih =>
+    intro rest hn f1 f2 line col acc h1 h2
+    cases rest with
+    | nil => cases f1 <;> cases f2 <;> simp [lexLoop, code]
+    | cons c cs =>
+      cases f1 with
+      | zero => omega
+      | succ f1 =>
+      cases f2 with
+      | zero => omega
+      | succ f2 =>
+      simp only [List.length_cons] at hn h1 h2
+      have hskip : lexLoop R f1 (advance ⟨c :: cs, line, col⟩) acc =
+          acc ++ code R f2 cs (if c = 10 then line + 1 else line) (if c = 10 then 0 else col + 1) := by
+        rw [advance_cons, ih cs (by omega) f1 f2 _ _ acc (by omega) (by omega)]
+        by_cases hc : c = 10 <;> simp [hc, nls_cons, nls_nil, colAfter]
+      by_cases hq : c = 34 ∨ c = 39 ∨ c = 96
+      · simp only [lexLoop, code, if_pos hq]
+        by_cases hh : R.html = true
+        · simp only [if_pos hh]; exact hskip
+        · simp only [if_neg hh]
+          have hc10 : c ≠ 10 := by rcases hq with h | h | h <;> (subst h; decide)
+          have hlen : (c :: cs).length ≤ n + 1 := by simpa using hn
+          have hl1 : (c :: cs).length < f1 + 1 := by simpa using h1
+          have hl2 : (c :: cs).length < f2 + 1 := by simpa using h2
+          generalize (if c = 34 then R.dq else if c = 39 then R.sq else if c = 96 then R.bq else none) = qi
+          cases qi with
+          | none => exact hskip
+          | some esc =>
+            simp only []
+            by_cases hT : R.python = true ∧ (c = 34 ∨ c = 39) ∧ [c, c, c].isPrefixOf (c :: cs) = true
+            · have hT' : R.python = true ∧ (c = 39 ∨ c = 34) := ⟨hT.1, hT.2.1.symm⟩
+              have htq : (if R.python = true ∧ (c = 39 ∨ c = 34) then
+                    matchAt [c, c, c] ⟨c :: cs, line, col⟩ else none) =
+                  some ⟨(c :: cs).drop [c, c, c].length, line, col + [c, c, c].length⟩ := by
+                rw [if_pos hT', matchAt_eq, if_pos ⟨by simp, hT.2.2⟩]
+                simp [nls_cons, nls_nil, colAfter, hc10]
+              have hdoc : ((R.python = true ∧ (c = 34 ∨ c = 39) ∧ [c, c, c].isPrefixOf (c :: cs) = true) ∧ col = 0)
+                  ↔ col = 0 := ⟨fun h => h.2, fun h => ⟨hT, h⟩⟩
+              simp only [htq, if_pos hT, hdoc]
+              have hq3 : ([c, c, c] : List Rune) ≠ [] := by simp
+              have h103 : (10 : Rune) ∉ [c, c, c] := by simp [Ne.symm hc10]
+              rcases hsb : strBody [c, c, c] esc R.nlEndsString ((List.drop [c, c, c].length (c :: cs)).length + 1)
+                  (List.drop [c, c, c].length (c :: cs)) [] with _ | ⟨rest', content⟩
+              · rw [(stringBody_spec R [c, c, c] esc hq3 _ _ line (col + [c, c, c].length) []).1 hsb]
+                simp
+              · obtain ⟨p2, he, hline, hloop⟩ := string_some R n ih (c :: cs) [c, c, c] _ esc hq3 h103
+                  (isPrefixOf_eq_append hT.2.2) hlen f1 f2 line col hl1 hl2 rest' content hsb
+                rw [he]
+                simp only [hloop, hline]
+                by_cases hcol : col = 0 <;> simp [hcol]
+            · have htq : (if R.python = true ∧ (c = 39 ∨ c = 34) then
+                    matchAt [c, c, c] ⟨c :: cs, line, col⟩ else none) = none := by
+                by_cases hT' : R.python = true ∧ (c = 39 ∨ c = 34)
+                · rw [if_pos hT', matchAt_eq, if_neg]
+                  exact fun h => hT ⟨hT'.1, hT'.2.symm, h.2⟩
+                · rw [if_neg hT']
+              have hadv : advance ⟨c :: cs, line, col⟩ =
+                  ⟨(c :: cs).drop [c].length, line, col + [c].length⟩ := by
+                rw [advance_cons]; simp [nls_cons, nls_nil, colAfter, hc10]
+              have hdoc : ¬ ((R.python = true ∧ (c = 34 ∨ c = 39) ∧ [c, c, c].isPrefixOf (c :: cs) = true) ∧ col = 0) :=
+                fun h => hT h.1
+              simp only [htq, if_neg hT, if_neg hdoc, hadv]
+              have hq1 : ([c] : List Rune) ≠ [] := by simp
+              have h101 : (10 : Rune) ∉ [c] := by simp [Ne.symm hc10]
+              rcases hsb : strBody [c] esc R.nlEndsString ((List.drop [c].length (c :: cs)).length + 1)
+                  (List.drop [c].length (c :: cs)) [] with _ | ⟨rest', content⟩
+              · rw [(stringBody_spec R [c] esc hq1 _ _ line (col + [c].length) []).1 hsb]
+                simp
+              · obtain ⟨p2, he, hline, hloop⟩ := string_some R n ih (c :: cs) [c] (List.drop [c].length (c :: cs)) esc hq1 h101
+                  rfl hlen f1 f2 line col hl1 hl2 rest' content hsb
+                rw [he]
+                simp [hloop]
+      · have hlen : (c :: cs).length ≤ n + 1 := by simpa using hn
+        have hl1 : (c :: cs).length < f1 + 1 := by simpa using h1
+        have hl2 : (c :: cs).length < f2 + 1 := by simpa using h2
+        simp only [lexLoop, code, if_neg hq, firstMulti_eq, firstMatch_eq]
+        rcases hfb : firstBlock R.multis (c :: cs) with _ | ⟨start, stop⟩
+        · simp only [Option.map_none]
+          rcases hfp : firstPrefix R.singles (c :: cs) with _ | s
+          · simp only [Option.map_none]
+            exact hskip
+          · simp only [Option.map_some]
+            obtain ⟨hm, hne, hp⟩ := firstPrefix_some hfp
+            have h10 : (10 : Rune) ∉ s := wf.1 s hm
+            rw [singleBody_eq]
+            simp only [nls_eq_zero.2 h10, colAfter_of_not_mem h10, Nat.add_zero]
+            have hcs : c :: cs = s ++ List.drop s.length (c :: cs) := isPrefixOf_eq_append hp
+            generalize List.drop s.length (c :: cs) = body at hcs ⊢
+            have hbody := (List.takeWhile_append_dropWhile (p := (· ≠ 10)) (l := body)).symm
+            rcases dropWhile_ne10 body with hdw | ⟨t, hdw⟩
+            · simp only [hdw, if_true]; simp
+            · rw [hdw] at hbody ⊢
+              generalize List.takeWhile (· ≠ 10) body = tw at hbody ⊢
+              have hlen' : (c :: cs).length = s.length + tw.length + 1 + t.length := by
+                rw [hcs, hbody]; simp; omega
+              have hspos : 0 < s.length := List.length_pos_iff.2 hne
+              cases f2 with
+              | zero => omega
+              | succ f2 =>
+                rw [code_newline R wf, advance_cons,
+                  ih t (by omega) f1 f2 _ _ _ (by omega) (by omega)]
+                simp [nls_cons, nls_nil, colAfter]
+        · simp only [Option.map_some]
+          obtain ⟨hm, hne, hp⟩ := firstBlock_some hfb
+          have h10 : (10 : Rune) ∉ start := (wf.2 _ hm).1
+          rcases hbb : blockBody start stop R.nested ((List.drop start.length (c :: cs)).length + 1)
+              (List.drop start.length (c :: cs)) 0 [] with _ | ⟨rest', text⟩
+          · rw [(multiBody_spec R start stop _ _ (line + nls start) (colAfter start col) 0 []).1 hbb]
+            simp
+          · obtain ⟨p2, he, hline, hloop⟩ := block_some R n ih (c :: cs) start stop _ hne
+              (isPrefixOf_eq_append hp) hlen f1 f2 line col hl1 hl2 rest' text hbb
+            rw [he]
+            simp [hloop, hline, nls_eq_zero.2 h10]
+
+theorem lex_refines_spec' (R : Row) (wf : R.WF) (rs : List Rune) :
+    parse R rs = LC.LexSpec.comments R rs := by
+  unfold parse comments
+  by_cases h : rs = []
+  · simp [h]
+  · simp only [if_neg h]
+    have := lexLoop_spec R wf _ (if rs.getLast? = some 10 then rs else rs ++ [10]) (Nat.le_refl _)
+      ((if rs.getLast? = some 10 then rs else rs ++ [10]).length + 1)
+      ((if rs.getLast? = some 10 then rs else rs ++ [10]).length + 1) 1 0 [] (by omega) (by omega)
+    simpa using this
+
+/-- comments of the specification start at or after the current line and end at or after their start -/
+theorem code_lines (R : Row) : ∀ (fuel : Nat) (rest : List Rune) (line col : Nat),
+    ∀ c ∈ code R fuel rest line col, line ≤ c.startLine ∧ c.startLine ≤ c.endLine := by
+  intro fuel
+  induction fuel with
+  | zero => intro rest line col c hc; simp [code] at hc
+  | succ fuel ih =>
+    intro rest line col c hc
+    cases rest with
+    | nil => simp [code] at hc
+    | cons r rs =>
+      have hskip : ∀ c ∈ code R fuel rs (if r = 10 then line + 1 else line) (if r = 10 then 0 else col + 1),
+          line ≤ c.startLine ∧ c.startLine ≤ c.endLine := by
+        intro c hc
+        have := ih _ _ _ c hc
+        by_cases hr : r = 10 <;> simp [hr] at this <;> omega
+      simp only [code] at hc
+      repeat' split at hc
+      all_goals first
+        | exact hskip c hc
+        | (exfalso; simp at hc; done)
+        | skip
+      all_goals
+        try simp only [List.mem_append, List.mem_cons, List.not_mem_nil, or_false, List.nil_append] at hc
+        first
+        | (have := ih _ _ _ c hc; omega)
+        | (rcases hc with rfl | hc
+           · simp
+           · have := ih _ _ _ c hc; omega)
+
+theorem spec_comment_lines' (R : Row) (rs : List Rune) :
+    ∀ c ∈ LC.LexSpec.comments R rs, 1 ≤ c.startLine ∧ c.startLine ≤ c.endLine := by
+  intro c hc
+  unfold comments at hc
+  by_cases h : rs = []
+  · simp [h] at hc
+  · simp only [if_neg h] at hc
+    exact code_lines R _ _ _ _ c hc
+
+
+/-! ### the language table -/
+
+/-- no delimiter of a language contains a newline -/
+def factsOk (f : LangFacts) : Bool :=
+  !(f.single.contains 10) && !(f.multiStart.contains 10) && !(f.multiEnd.contains 10)
+
+theorem factsOk_iff (f : LangFacts) :
+    factsOk f = true ↔ (10 : Rune) ∉ f.single ∧ (10 : Rune) ∉ f.multiStart ∧ (10 : Rune) ∉ f.multiEnd := by
+  simp [factsOk, and_assoc]
+
+theorem rowOf_wf (facts : Array LangFacts) (k : LangConsts)
+    (h : ∀ i, factsOk (facts.getD i emptyFacts) = true) (lang : Nat) : (rowOf facts k lang).WF := by
+  have hf := (factsOk_iff _).1 (h lang)
+  have h1 := (factsOk_iff _).1 (h k.mySQL)
+  have h2 := (factsOk_iff _).1 (h k.matlab)
+  unfold rowOf Row.WF
+  by_cases hs : lang = k.sql
+  · simp only [if_pos hs]
+    refine ⟨fun s hs => ?_, fun m hm => ?_⟩
+    · simp only [List.mem_cons, List.not_mem_nil, or_false] at hs
+      rcases hs with rfl | rfl
+      · exact hf.1
+      · exact h1.1
+    · simp only [List.mem_cons, List.not_mem_nil, or_false] at hm
+      rcases hm with rfl | rfl
+      · exact hf.2
+      · exact h1.2
+  · by_cases ho : lang = k.objectiveC
+    · simp only [if_neg hs, if_pos ho]
+      refine ⟨fun s hs => ?_, fun m hm => ?_⟩
+      · simp only [List.mem_cons, List.not_mem_nil, or_false] at hs
+        rcases hs with rfl | rfl
+        · exact hf.1
+        · exact h2.1
+      · simp only [List.mem_cons, List.not_mem_nil, or_false] at hm
+        rcases hm with rfl | rfl
+        · exact hf.2
+        · exact h2.2
+    · simp only [if_neg hs, if_neg ho]
+      refine ⟨fun s hs => ?_, fun m hm => ?_⟩
+      · simp only [List.mem_cons, List.not_mem_nil, or_false] at hs
+        subst hs; exact hf.1
+      · simp only [List.mem_cons, List.not_mem_nil, or_false] at hm
+        subst hm; exact hf.2
+
+theorem expect_size : LC.Spec.LangExpect.facts.size = 64 := by decide
+
+theorem expect_lt_ok : ∀ i, i < 64 → factsOk (LC.Spec.LangExpect.facts.getD i emptyFacts) = true := by
+  decide +kernel
+
+theorem expect_getD_ok (i : Nat) : factsOk (LC.Spec.LangExpect.facts.getD i emptyFacts) = true := by
+  by_cases h : i < 64
+  · exact expect_lt_ok i h
+  · have : LC.Spec.LangExpect.facts.getD i emptyFacts = emptyFacts := by
+      simp [Array.getD, expect_size, h]
+    rw [this]; decide
+
+theorem expected_rows_wf' (lang : Nat) :
+    (rowOf LC.Spec.LangExpect.facts LC.LexSpec.expectedConsts lang).WF :=
+  rowOf_wf _ _ expect_getD_ok lang
+
+theorem table_eq : LC.Gen.Lang.facts = LC.Spec.LangExpect.facts := by decide
+
+theorem consts_eq :
+    ({ html := LC.Gen.Lang.cHTML, python := LC.Gen.Lang.cPython, javaScript := LC.Gen.Lang.cJavaScript,
+       perl := LC.Gen.Lang.cPerl, sql := LC.Gen.Lang.cSQL, objectiveC := LC.Gen.Lang.cObjectiveC,
+       mySQL := LC.Gen.Lang.cMySQL, matlab := LC.Gen.Lang.cMatlab } : LangConsts) = LC.LexSpec.expectedConsts := by
+  decide
+
+theorem parse_is_spec' (lang : Nat) (rs : List Rune) :
+    parse (rowOf LC.Gen.Lang.facts
+      { html := LC.Gen.Lang.cHTML, python := LC.Gen.Lang.cPython, javaScript := LC.Gen.Lang.cJavaScript,
+        perl := LC.Gen.Lang.cPerl, sql := LC.Gen.Lang.cSQL, objectiveC := LC.Gen.Lang.cObjectiveC,
+        mySQL := LC.Gen.Lang.cMySQL, matlab := LC.Gen.Lang.cMatlab } lang) rs =
+    LC.LexSpec.specComments lang rs := by
+  rw [table_eq, consts_eq]
+  exact lex_refines_spec' _ (expected_rows_wf' lang) rs
+
+/-! ### ChunkIterator -/
+
+theorem IsChain.tail {α : Type} {R : α → α → Prop} {a : α} {l : List α} (h : IsChain R (a :: l)) :
+    IsChain R l := by
+  cases h with
+  | singleton => exact IsChain.nil
+  | cons_cons _ h => exact h
+
+/-- adjacency inside a chunk -/
+abbrev adjR (a b : Comment) : Prop := b.startLine ≤ a.startLine + 1
+
+/-- separation between consecutive chunks -/
+abbrev maxR (a b : List Comment) : Prop :=
+  ∀ x ∈ a.getLast?, ∀ y ∈ b.head?, y.startLine > x.startLine + 1
+
+theorem takeChunk_spec : ∀ (cs : List Comment) (prev : Comment) (chunk : List Comment),
+    ∃ taken rest last, takeChunk cs prev chunk = (chunk ++ taken, rest, last) ∧ cs = taken ++ rest ∧
+      IsChain adjR (prev :: taken) ∧ (prev :: taken).getLast? = some last ∧
+      (∀ r ∈ rest.head?, r.startLine > last.startLine + 1) := by
+  intro cs
+  induction cs with
+  | nil =>
+    intro prev chunk
+    exact ⟨[], [], prev, by simp [takeChunk], rfl, IsChain.singleton _, rfl, by simp⟩
+  | cons c cs ih =>
+    intro prev chunk
+    by_cases h1 : c.startLine > prev.startLine + 1
+    · refine ⟨[], c :: cs, prev, by simp [takeChunk, h1], rfl, IsChain.singleton _, rfl, ?_⟩
+      intro r hr; simp at hr; subst hr; exact h1
+    · have h2 : ¬ (c.startLine = prev.startLine + 2 ∧ (c.startLine ≠ c.endLine ∨ prev.startLine ≠ prev.endLine)) := by
+        intro h; omega
+      obtain ⟨taken, rest, last, he, hcs, hch, hl, hr⟩ := ih c (chunk ++ [c])
+      refine ⟨c :: taken, rest, last, ?_, by simp [hcs], IsChain.cons_cons (by show c.startLine ≤ _; omega) hch, ?_, hr⟩
+      · simp only [takeChunk, if_neg h1, if_neg h2, he]; simp
+      · rw [List.getLast?_cons_cons]; exact hl
+
+theorem chunks_spec : ∀ (fuel : Nat) (c : Comment) (cs : List Comment), (c :: cs).length ≤ fuel →
+    (chunks fuel (c :: cs) c).flatten = c :: cs ∧
+    (∀ ch ∈ chunks fuel (c :: cs) c, ch ≠ [] ∧ IsChain adjR ch) ∧
+    IsChain maxR (chunks fuel (c :: cs) c) ∧
+    (∃ ch0 tl, chunks fuel (c :: cs) c = (c :: ch0) :: tl) := by
+  intro fuel
+  induction fuel with
+  | zero => intro c cs h; simp at h
+  | succ fuel ih =>
+    intro c cs hlen
+    obtain ⟨taken, rest, last, he, hcs, hch, hl, hr⟩ := takeChunk_spec (c :: cs) c []
+    -- the first comment is always taken
+    cases taken with
+    | nil =>
+      exfalso
+      simp only [List.nil_append] at hcs he
+      rw [← hcs] at hr he
+      simp only [List.getLast?_singleton, Option.some.injEq] at hl
+      subst hl
+      have := hr c (by simp)
+      omega
+    | cons t taken =>
+      simp only [List.cons_append, List.cons.injEq] at hcs
+      obtain ⟨rfl, hcs⟩ := hcs
+      simp only [List.nil_append] at he
+      have hch' : IsChain adjR (c :: taken) := hch.tail
+      rw [List.getLast?_cons_cons] at hl
+      cases rest with
+      | nil =>
+        have hout : chunks (fuel + 1) (c :: cs) c = [c :: taken] := by
+          simp [chunks, he]
+        rw [hout]
+        refine ⟨by simp [hcs], ?_, IsChain.singleton _, ⟨taken, [], rfl⟩⟩
+        intro ch hch2; simp at hch2; subst hch2; exact ⟨by simp, hch'⟩
+      | cons r rest =>
+        have hout : chunks (fuel + 1) (c :: cs) c = (c :: taken) :: chunks fuel (r :: rest) r := by
+          simp [chunks, he]
+        rw [hout]
+        have hlen' : (r :: rest).length ≤ fuel := by
+          have : (c :: cs).length = (c :: taken).length + (r :: rest).length := by
+            rw [hcs]; simp; omega
+          simp only [List.length_cons] at this hlen ⊢
+          omega
+        obtain ⟨i1, i2, i3, ch0, tl, i4⟩ := ih r rest hlen'
+        refine ⟨by simp [i1, hcs], ?_, ?_, ⟨taken, _, rfl⟩⟩
+        · intro ch hch2
+          rcases List.mem_cons.1 hch2 with rfl | hch2
+          · exact ⟨by simp, hch'⟩
+          · exact i2 ch hch2
+        · rw [i4] at i3 ⊢
+          refine IsChain.cons_cons ?_ i3
+          intro x hx y hy
+          simp only [List.head?_cons, Option.mem_def, Option.some.injEq] at hy
+          subst hy
+          rw [Option.mem_def, hl] at hx
+          cases hx
+          exact hr r (by simp)
+
+theorem chunks_concat' (cs : List Comment) : (chunkIterator cs).flatten = cs := by
+  cases cs with
+  | nil => rfl
+  | cons c cs => exact (chunks_spec _ c cs (Nat.le_succ _)).1
+
+theorem chunks_nonempty' (cs : List Comment) : ∀ ch ∈ chunkIterator cs, ch ≠ [] := by
+  cases cs with
+  | nil => intro ch h; cases h
+  | cons c cs => intro ch h; exact ((chunks_spec _ c cs (Nat.le_succ _)).2.1 ch h).1
+
+theorem chunks_adjacent' (cs : List Comment) :
+    ∀ ch ∈ chunkIterator cs, IsChain (fun a b => b.startLine ≤ a.startLine + 1) ch := by
+  cases cs with
+  | nil => intro ch h; cases h
+  | cons c cs => intro ch h; exact ((chunks_spec _ c cs (Nat.le_succ _)).2.1 ch h).2
+
+theorem chunks_maximal' (cs : List Comment) :
+    IsChain (fun a b => ∀ x ∈ a.getLast?, ∀ y ∈ b.head?, y.startLine > x.startLine + 1)
+      (chunkIterator cs) := by
+  cases cs with
+  | nil => exact IsChain.nil
+  | cons c cs => exact (chunks_spec _ c cs (Nat.le_succ _)).2.2.1
+
+/-- `IsChain` is the index formulation: consecutive elements are related -/
+theorem isChain_iff_get {α : Type} (R : α → α → Prop) (l : List α) :
+    IsChain R l ↔ ∀ i (h : i + 1 < l.length), R (l[i]'(Nat.lt_of_succ_lt h)) l[i + 1] := by
+  induction l with
+  | nil => exact ⟨fun _ i h => absurd h (by simp), fun _ => IsChain.nil⟩
+  | cons a l ih =>
+    cases l with
+    | nil => exact ⟨fun _ i h => absurd h (by simp), fun _ => IsChain.singleton a⟩
+    | cons b l =>
+      constructor
+      · intro h i hi
+        cases h with
+        | cons_cons hab hl =>
+          cases i with
+          | zero => exact hab
+          | succ i => exact ih.1 hl i (by simpa using hi)
+      · intro h
+        refine IsChain.cons_cons (h 0 (by simp)) (ih.2 ?_)
+        intro i hi
+        exact h (i + 1) (by simpa using hi)
+
+theorem nonvacuous_example :
+    LC.LexSpec.specComments 5 ("x=\"/*no*/\";/**//*b*/ \"s\"//c\n".toList.map Char.toNat) =
+      [⟨1, 1, []⟩, ⟨1, 1, [98]⟩, ⟨1, 1, [99]⟩] ∧
+    chunkIterator [⟨1, 1, []⟩, ⟨2, 2, []⟩, ⟨4, 6, []⟩, ⟨7, 7, []⟩] =
+      [[⟨1, 1, []⟩, ⟨2, 2, []⟩], [⟨4, 6, []⟩], [⟨7, 7, []⟩]] := by
+  decide +kernel
+
 end LC.Lexer
